@@ -790,7 +790,10 @@ func (r *Reconciler) evictPod(ctx context.Context, job *sev1alpha1.PodMigrationJ
 	pod := &corev1.Pod{}
 	podNamespacedName := types.NamespacedName{Namespace: job.Spec.PodRef.Namespace, Name: job.Spec.PodRef.Name}
 	err := r.Client.Get(ctx, podNamespacedName, pod)
-	if errors.IsNotFound(err) || (err == nil && cond != nil && job.Spec.PodRef.UID != "" && job.Spec.PodRef.UID != pod.UID) {
+	// A Pod carrying another UID is not the Pod this job was prepared for (it was replaced under the same name), whether or
+	// not an eviction has been issued yet: the same-node check of prepareJobWithReservationScheduleSuccess was made for the
+	// original Pod and is not repeated, so the replacement must never reach Evict.
+	if errors.IsNotFound(err) || (err == nil && job.Spec.PodRef.UID != "" && job.Spec.PodRef.UID != pod.UID) {
 		if job.Status.Status != string(sev1alpha1.PodMigrationJobConditionEviction) {
 			err = r.abortJobByMissingPod(ctx, job, podNamespacedName)
 			return false, reconcile.Result{}, err
